@@ -111,6 +111,18 @@ pub fn cw_profile(r: &mut Rng, max_n: usize) -> (Vec<P>, &'static str) {
 pub fn emit_tri(seed: u64, n: usize, max_n: usize) {
     let mut r = Rng::new(seed);
     let mut queue: Vec<(Vec<P>, &'static str)> = Vec::new();
+    // corpus (runs first): straight-angle vertices on an exactly vertical left-most side and on the other sides, an L bracket with
+    // mid-edge vertices, at three scales; every cyclic start and both windings, un-rotated
+    let corpus: Vec<Vec<P>> = vec![
+        vec![(0.0, 0.0), (2.0, 0.0), (2.0, 2.0), (0.0, 2.0), (0.0, 1.0)],
+        vec![(0.0, 0.0), (1.0, 0.0), (3.0, 0.0), (3.0, 2.0), (0.0, 2.0), (0.0, 1.5), (0.0, 0.5)],
+        vec![(0.0, 0.0), (2.0, 0.0), (2.0, 1.0), (1.0, 1.0), (1.0, 2.0), (0.0, 2.0), (0.0, 1.0)],
+        vec![(5.0, 0.0), (7.0, 1.0), (7.0, 3.0), (5.0, 4.0), (5.0, 3.0), (5.0, 1.0)],
+    ];
+    for base in corpus.iter() { for sc in [1.0, 1e-3, 25.4] {
+        let scd: Vec<P> = base.iter().map(|q| (q.0 * sc, q.1 * sc)).collect();
+        for w in 0..2 { for k in 0..scd.len() { let mut q = scd.clone(); if w == 1 { q.reverse(); } q.rotate_left(k); queue.push((q, "corpus_straight_vertices")); } }
+    } }
     let mut i = 0usize;
     while i < n {
         // small polygons are also run through every cyclic start and both windings, un-rotated (exact collinearities kept)
